@@ -389,14 +389,16 @@ class ExceptionTrace(object):
                     )
 
                     if io.is_debug():
-                        if (frame, 2, 2) not in self._FRAME_SNIPPET_CACHE:
+                        # The symbols of a snippet depend on the output it is rendered for
+                        cache_key = (frame, 2, 2, io.supports_utf8())
+                        if cache_key not in self._FRAME_SNIPPET_CACHE:
                             code_lines = Highlighter(
                                 supports_utf8=io.supports_utf8()
                             ).code_snippet(frame.file_content, frame.lineno,)
 
-                            self._FRAME_SNIPPET_CACHE[(frame, 2, 2)] = code_lines
+                            self._FRAME_SNIPPET_CACHE[cache_key] = code_lines
 
-                        code_lines = self._FRAME_SNIPPET_CACHE[(frame, 2, 2)]
+                        code_lines = self._FRAME_SNIPPET_CACHE[cache_key]
 
                         for code_line in code_lines:
                             self._render_line(
